@@ -32,8 +32,15 @@ def slot_orders(src):
     return out
 
 
-def run(src, clock0=0.0):
-    oc = e.run_program(src, tl=50)
+KEEP = []        # contexts of the warm-up evaluations stay alive, so that whatever they leaked cannot be recycled by the allocator
+
+
+def run(src, clock0=0.0, tl=50, keep=False):
+    if keep:
+        oc, ctx = e.run_program(src, tl=tl, want_ctx=True)
+        KEEP.append(ctx)
+        return oc
+    oc = e.run_program(src, tl=tl)
     return oc
 
 
@@ -83,7 +90,13 @@ def main():
         for k in range(job.get("warmups", 1000)):
             run("var w%d = %d; (function () { var a = w%d, b = a + 1; return function () { return a + b } })()()" % (k % 7, k, k % 7))
             if k % 10 == 0:
-                run(FAILING[(k // 10) % len(FAILING)])
+                run(FAILING[(k // 10) % len(FAILING)], keep=True)
+        # every way of failing, often enough to cross any small internal capacity (depth budgets, caches, pools)
+        for f in FAILING:
+            if "s + s" in f:
+                continue        # allocates up to the string cap every time: once (above) is enough
+            for _ in range(job.get("repeat_failing", 110)):
+                run(f, tl=(3 if "while (true)" in f else 50), keep=True)
         e.CLOCK.now = 123456.0
         warm = [run(p) for p in progs]
         res["outcomes"] = ["same" if a == b else "differs: %s vs %s" % (a[:80], b[:80]) for a, b in zip(cold, warm)]
